@@ -655,7 +655,11 @@ fn c14_variants(sc: &Scenario, pre: &World, out: &EvalOut, plan: &EvalPlan, salt
     let base_disp = disp_by_id(out);
     for i in 0..k {
         let mut p = fresh_plan(plan, 500 + i);
-        p.hash_seed = plan.hash_seed; // held fixed inside a group
+        // The outcome must be a function of graph, history, present outputs and job behaviour: the hidden
+        // iteration order of the engine's hash containers is not among them (until fix 2bd089b a tie in the
+        // renamed-upstream lookup was broken by it, which is why the seed used to be held fixed in a group).
+        // Every other variant runs under another hash seed.
+        p.hash_seed = if i % 2 == 1 { (r.next_u64() >> 1) | 1 } else { plan.hash_seed };
         p.decl_seed = if r.chance(1, 4) { plan.decl_seed } else { (r.next_u64() >> 1) | 1 };
         let mut w = pre.clone();
         let t = evaluate(&sc.cfg, &sc.defs, &mut w, &p, salt);
@@ -678,7 +682,7 @@ fn c14_variants(sc: &Scenario, pre: &World, out: &EvalOut, plan: &EvalPlan, salt
                 vec![v(
                     "C14",
                     "disposition-depends-on-order",
-                    format!("dispositions differ between {:?}/decl {} and {:?}/decl {}: {}", plan.policy, plan.decl_seed != 0, p.policy, p.decl_seed != 0, diff.join(", ")),
+                    format!("dispositions differ between {:?}/decl {} and {:?}/decl {}{}: {}", plan.policy, plan.decl_seed != 0, p.policy, p.decl_seed != 0, if p.hash_seed != plan.hash_seed { "/other hash seed" } else { "" }, diff.join(", ")),
                 )],
             );
         }
